@@ -2,7 +2,7 @@
 from bounded import harness, decode
 from bounded.corpus import corpus, bound_text
 
-FAMILIES = ['sel', 'inc', 'con', 'conx', 'forced', 'conn', 'conn2', 'dvmet']
+FAMILIES = ['sel', 'inc', 'con', 'conx', 'forced', 'conn', 'conn2', 'dvmet', 'mix']
 
 
 def member(desc, tier, seed):
